@@ -651,6 +651,34 @@ class Interp:
             items.append((self.ev(k, frame), self.ev(v, frame)))
         return self.alloc(HDict(items))
 
+    def ev_ListComp(self, node, frame):
+        if len(node.generators) != 1 or node.generators[0].is_async:
+            raise Unsupported('nested comprehension', node)
+        g = node.generators[0]
+        it = self.unwrap(self.ev(g.iter, frame), node)
+        items = self.ctx.loops.concrete_items(self, it)
+        if items is None:
+            h = self.ctx.comprehension_hook(self, node, it, frame)
+            if h is not None:
+                return h
+            raise Unsupported('comprehension over a symbolic iterable', node)
+        out = []
+        fr = Frame({}, frame.module, frame.cls, frame.finfo, parent=frame, sidecar=frame.sidecar)
+        fr.spec = frame.spec
+        for x in items:
+            self.assign(g.target, x, fr)
+            ok = True
+            for cond in g.ifs:
+                if not self.branch(self.truthy(self.ev(cond, fr), node)):
+                    ok = False
+                    break
+            if ok:
+                out.append(self.ev(node.elt, fr))
+        return self.alloc(HList(out, 'list'))
+
+    def ev_GeneratorExp(self, node, frame):
+        return self.ev_ListComp(node, frame)
+
     def ev_Lambda(self, node, frame):
         return VClosure(node, None, frame)
 
@@ -667,7 +695,15 @@ class Interp:
                 return self.ev(node.orelse, frame)
             a = self.ev(node.body, frame)
             b = self.ev(node.orelse, frame)
-            return self.merge(c, a, b, node)
+            try:
+                return self.merge(c, a, b, node)
+            except Unsupported:
+                # values that cannot be merged (e.g. tuples of different length): decide the test under the path condition
+                if self.provable(c):
+                    return a
+                if self.provable(z3.Not(c)):
+                    return b
+                raise
         if self.branch(c):
             return self.ev(node.body, frame)
         return self.ev(node.orelse, frame)
@@ -818,6 +854,14 @@ class Interp:
                 return res
             if isinstance(a, VTuple) and isinstance(b, VTuple):
                 return VTuple(a.items + b.items)
+            if (isinstance(a, VTuple) and sb is not None) or (isinstance(b, VTuple) and sa is not None):
+                # symbolic tuple + concrete tuple: lift the concrete one into the element theory of the other
+                other = sb if isinstance(a, VTuple) else sa
+                if other.kind == 'tuple':
+                    conc = a if isinstance(a, VTuple) else b
+                    lifted = other.th.lit([self.elem_term(other.th, x, node) for x in conc.items])
+                    ta, tb = (lifted, other.t) if isinstance(a, VTuple) else (other.t, lifted)
+                    return VSeq(other.th.app(ta, tb), 'tuple', other.th, other.ekind)
             if self.is_list(a) and self.is_list(b):
                 ca, cb = self.cell(a), self.cell(b)
                 if isinstance(ca.content, list) and isinstance(cb.content, list):
@@ -1173,7 +1217,12 @@ class Interp:
             lo = self.ev(node.slice.lower, frame) if node.slice.lower is not None else None
             hi = self.ev(node.slice.upper, frame) if node.slice.upper is not None else None
             if node.slice.step is not None:
-                raise Unsupported('slice step', node)
+                st = VInt(self.as_int(self.ev(node.slice.step, frame))).const()
+                o = self.unwrap(obj, node)
+                items = o.items if isinstance(o, VTuple) else (self.cell(o).content if self.is_list(o) and isinstance(self.cell(o).content, list) else None)
+                if st is None or items is None or lo is not None or hi is not None:
+                    raise Unsupported('slice step', node)
+                return VTuple(items[::st]) if isinstance(o, VTuple) else self.alloc(HList(items[::st], self.cell(o).kind))
             return self.slice(obj, lo, hi, node)
         idx = self.ev(node.slice, frame)
         return self.index(obj, idx, node)
@@ -1242,6 +1291,9 @@ class Interp:
                     raise Unsupported('symbolic index into a heterogeneous tuple/list', node)
                 return self.index_seq(s, idx, node)
             if not (-len(items) <= ic < len(items)):
+                if self.pure:
+                    self.ctx.qcount += 1
+                    return VOpaque(z3.Const('undefined!%d' % self.ctx.qcount, T.Obj), 'undefined')
                 self.require(False, 'index', node, exc='IndexError')
                 raise PyExc(VExc('IndexError', origin='index'))
             return items[ic]
@@ -1465,6 +1517,7 @@ class Interp:
         if rt is not None:
             res = self.ctx.make_symbolic(self, rt, 'ret_' + name.replace('.', '_').replace(':', '_'))
         self.emit(name, args, kwargs, res)
+        self.st.trace[-1].recv = list(recv)
         if decl.get('raises'):
             b = self.fresh_bool('raises_' + name.replace('.', '_').replace(':', '_'))
             if self.branch(b):
